@@ -14,9 +14,10 @@ import J5V.Codec.Decode
   at most one member set; implicit presence fields are never stored with their zero value.
 * `Env.simple` — one-element proto paths only (no flattened objects, no exposed oneofs), no `Any`,
   no anonymous proto oneof in objects.
-* `Env.plain` ⊇ `Env.simple` — the class the structure-level round trip is proved for: additionally
-  **anonymous proto oneofs** in objects (`group`) and **exposed oneofs** (empty path). Still
-  excluded: flattened objects (paths longer than one), `Any`.
+* `Env.flat` ⊇ `Env.simple` — the class the structure-level round trip is proved for:
+  additionally **anonymous proto oneofs** in objects (`group`), **exposed oneofs** (empty path)
+  and **flattened objects** (proto paths of any positive length, prefix-free). Still excluded: `Any`, an exposed oneof inlined from a flattened object
+  (its path is a prefix of its siblings' paths).
 -/
 namespace J5V.Codec
 open J5V.Json
@@ -56,24 +57,6 @@ def Env.simple (env : Env) : Bool :=
 
 /-! ## exposed oneofs, flattened objects -/
 
-/-- the members of the oneof behind an exposed-oneof property (empty path: the oneof is a view of
-the same message); `[]` for every other property -/
-def exposedOps (env : Env) (p : PropDef) : List PropDef :=
-  match p.path, p.field with
-  | [], .oneof ref =>
-    match env.find ref with
-    | some (.oneof ops) => ops
-    | _ => []
-  | _, _ => []
-
-/-- the top-level field numbers a property addresses as leaves of its message: its own final
-field (one-element path) or the member fields of an exposed oneof -/
-def propKeys (env : Env) (p : PropDef) : List Nat :=
-  match p.path with
-  | [k] => [k]
-  | [] => (exposedOps env p).filterMap fun q => match q.path with | [k] => some k | _ => none
-  | _ => []
-
 /-- the property that owns top-level field `k` as a leaf -/
 def leafProp (env : Env) (props : List PropDef) (k : Nat) : Option PropDef :=
   match props.find? (fun p => p.path == [k]) with
@@ -109,14 +92,39 @@ def propExposed (env : Env) (p : PropDef) : Bool :=
      | _ => false
    | _ => false)
 
-def rootPlain (env : Env) : Root → Bool
+/-! ## flattened objects -/
+
+/-- the leaves of the message a property addresses: (proto path, field schema, presence class) -/
+def propLeaves (env : Env) (p : PropDef) : List (List Nat × Field × Pres) :=
+  match p.path with
+  | [] =>
+    (exposedOps env p).filterMap fun q =>
+      match q.path with
+      | [k] => some ([k], q.field, q.pres)
+      | _ => none
+  | path => [(path, p.field, p.pres)]
+
+def leafEntries (env : Env) (props : List PropDef) : List (List Nat × Field × Pres) :=
+  props.flatMap (propLeaves env)
+
+/-- no path is a proper prefix of another (a flattened message field is not itself a property) -/
+def prefixFree (L : List (List Nat)) : Bool :=
+  L.all fun a => L.all fun b => a == b || !(a.isPrefixOf b)
+
+def propFlat (p : PropDef) : Bool := !p.path.isEmpty && fieldSimple p.field
+
+/-- object roots of `Env.flat`: every property has a proto path of any positive length
+(**flattened objects**: the sub-message's properties are inlined with the full path) or is an
+exposed oneof; the leaf paths are distinct and prefix-free -/
+def rootFlat (env : Env) : Root → Bool
   | .object ps =>
-    ps.all (fun p => propSimple p || propExposed env p) &&
-    decide ((ps.map (·.jsonName)).Nodup) && decide ((ps.flatMap (propKeys env)).Nodup)
+    ps.all (fun p => propFlat p || propExposed env p) &&
+    decide ((ps.map (·.jsonName)).Nodup) &&
+    decide (((leafEntries env ps).map (·.1)).Nodup) && prefixFree ((leafEntries env ps).map (·.1))
   | r => rootSimple r
 
-def Env.plain (env : Env) : Bool :=
-  env.defs.all (fun d => rootPlain env d.2) &&
+def Env.flat (env : Env) : Bool :=
+  env.defs.all (fun d => rootFlat env d.2) &&
   env.defs.all (fun d => match d.2 with
     | .object ps | .oneof ps => ps.all (fun p => isValidUtf8 p.jsonName)
     | _ => true)
